@@ -34,7 +34,9 @@ MON = {"vis"}
 
 RESERVED = ["metador_container", "/metador_container/links", "metador_container/uuid", "g/metador_meta_", "g/metador_meta_d",
             "/g/metador_meta_d/x=1", "metador_x", "a/metador_new/b", "./metador_container", "g//metador_meta_", "metador_",
-            "/g/sub/metador_meta_", "g/metador_meta_/core.dir__0.1.0=zz"]
+            "/g/sub/metador_meta_", "g/metador_meta_/core.dir__0.1.0=zz",
+            # '..' is an ordinary link name for h5py/IH5, a lexical normalisation must not make the reserved segment vanish
+            "metador_foo/..", "metador_container/../x", "g/metador_meta_/../y", "g/sub/../metador_meta_d"]
 NEAR = ["xmetador_", "my_metador_x", "Metador_container", "metadorx", "g/xmetador_meta_"]
 
 
